@@ -574,7 +574,7 @@ func c07R6(c *Ctx) {
 				hasTrunc := false
 				var walk func(v ssa.Value)
 				walk = func(v ssa.Value) {
-					if n, ok := constInt(v); ok && n&0x200 != 0 { // O_TRUNC on linux/darwin/windows(0x200)
+					if n, ok := constInt(v); ok && n&c.osConst("O_TRUNC") != 0 {
 						hasTrunc = true
 					}
 					if b, ok := v.(*ssa.BinOp); ok {
@@ -597,4 +597,17 @@ func c07R6(c *Ctx) {
 		}
 	}
 	// v3 receiver passes truncate=false and runs the prefix-hash before returning the writer: C08-R3.
+}
+
+// osConst: value of a constant of package os for the configuration being analysed.
+func (c *Ctx) osConst(name string) int64 {
+	for _, p := range c.Prog.AllPackages() {
+		if p.Pkg.Path() == "os" {
+			if m, ok := p.Members[name].(*ssa.NamedConst); ok {
+				return m.Value.Int64()
+			}
+		}
+	}
+	c.lost("constant os." + name)
+	return 0
 }
